@@ -683,9 +683,14 @@ class JavaHarness:
         self.timings["javac"] = time.time() - t0
         out = p.stdout.decode("utf-8", "replace")
         if p.returncode != 0:
+            # generated classes are single-line files: javac echoes the whole class per diagnostic
+            out = "\n".join(l if len(l) <= 300 else l[:300] + " [...]" for l in out.splitlines()
+                            if l.strip() != "^")
             files = sorted(set(re.findall(r"([\w$]+\.java):\d+: error", out)))
             gen = [fn for fn in files if fn in self.generated_files]
-            raise JavaError(out[-8000:], "javac", files=files,
+            if len(out) > 9000:
+                out = out[:6000] + "\n[...]\n" + out[-3000:]
+            raise JavaError(out, "javac", files=files,
                             in_generated=bool(gen) if files else None, returncode=p.returncode)
         self.built = True
         return self.timings["javac"]
@@ -774,93 +779,203 @@ class JavaHarness:
             pass
 
 
-def supported(file, exclude=()):
-    """Static pre-filter: reasons why the Java backend cannot take this description
-    (empty list = expected to generate and compile). See the notes at the end of this module."""
+# Names the generated code uses for its own locals / members / types (each confirmed by a probe:
+# javac failure, or for `buf` an exception in toBytes()).
+BAD_MEMBER_NAMES = frozenset(["result", "other", "o", "builder", "buf"])
+BAD_MEMBER_NAMES_ARRAY = frozenset(["i"])            # only when the field is an array
+BAD_CLASS_NAMES = frozenset([
+    "B",  # the type variable of every generated Builder<B ...>
+    "Utils", "Builder", "UnconstrainedBuilder", "Byte", "Short", "Integer", "Long", "Boolean", "String", "Object",
+    "Arrays", "ArrayList", "ByteBuffer", "ByteOrder", "Override", "IllegalArgumentException",
+    "UnsupportedOperationException"])
+BAD_TAG_NAMES = frozenset(["String", "Object", "Override", "IllegalArgumentException", "Integer", "Byte", "Short",
+                           "Long"])
+
+
+def diagnose(file, exclude=()):
+    """-> [(declaration id, reason)]: why `pdlc --output-format java` panics on this description
+    or emits Java that javac rejects. Empty = expected to generate and compile. Every rule was
+    observed on the unchanged tree (probes recorded in the engine's hand-over report)."""
     info = _Info(file, exclude)
-    why = []
+    out = []
     names = {}
+
+    def claim(cn, did, what):
+        if cn in names:
+            out.append((did, "class name %s is also produced by %s" % (cn, names[cn])))
+        names[cn] = what
+
     for d in info.decls:
         k = d["kind"]
-        if k in ("custom_field_declaration", "checksum_declaration", "test_declaration"):
-            why.append("%s %s" % (k, d.get("id")))
+        did = d.get("id")
+        if k in ("custom_field_declaration", "checksum_declaration"):
+            out.append((did, "%s (todo!() in java/mod.rs generate_classes, even when unused)" % k))
             continue
-        if "id" in d:
-            cn = class_name(d["id"])
-            if cn in names:
-                why.append("class name %s for both %s and %s" % (cn, names[cn], d["id"]))
-            names[cn] = d["id"]
-            if cn in ("Utils", "Byte", "Short", "Integer", "Long", "Boolean", "String", "Object", "Arrays",
-                      "ByteBuffer", "ByteOrder", "ArrayList", "Override", "IllegalArgumentException",
-                      "UnsupportedOperationException", "Builder", "UnconstrainedBuilder"):
-                why.append("class name %s shadows a name the generated code uses" % cn)
+        if k == "test_declaration" or did is None:
+            continue
+        why = []
+        cn = class_name(did)
+        claim(cn, did, did)
+        if cn in BAD_CLASS_NAMES or cn in JAVA_KEYWORDS:
+            why.append("class name %s shadows a name the generated code uses" % cn)
         if k == "enum_declaration":
-            if d["width"] > 64:
-                why.append("enum %s wider than 64" % d["id"])
+            top = {}
+            lim = 1 << (31 if d["width"] <= 32 else 63)
+            for t in d["tags"]:
+                sub = {}
+                for u, scope in [(t, top)] + [(x, sub) for x in (t.get("tags") or ())]:
+                    tn = upper_camel(u["id"])
+                    if tn in scope:
+                        why.append("tags %s and %s both become class %s" % (scope[tn], u["id"], tn))
+                    scope[tn] = u["id"]
+                    if tn == cn or tn in BAD_TAG_NAMES:
+                        why.append("tag class name %s shadows a name the generated code uses" % tn)
+                    if "range" in u:
+                        if u["range"]["start"] >= lim or u["range"]["end"] >= lim:
+                            why.append("range bound >= 2^%d is emitted as an out-of-range literal" % (31 if lim == 1 << 31 else 63))
+                    elif "value" in u and u["value"] >= (1 << 31):
+                        why.append("tag value >= 2^31 is emitted as an int literal")
+            out.extend((did, w) for w in why)
             continue
         if k not in ("packet_declaration", "struct_declaration"):
             continue
-        bits = 0
+        if info.has_payload(d):
+            claim("Unknown" + cn, did, "the fallback child of " + did)
+        is_parent = info.has_payload(d) or info.has_body(d)
+        chunk = []
+        chunks = []
         seen = set()
+        members = 0
         for fl in d["fields"]:
             fk = fl["kind"]
-            if fl.get("cond") is not None:
-                why.append("%s: optional field" % d["id"])
-            if fk in ("padding_field", "elementsize_field", "checksum_field", "flag_field", "group_field"):
-                why.append("%s: %s" % (d["id"], fk))
+            if fl.get("cond") is not None or fk == "flag_field":
+                why.append("optional field / flag (todo!() in PacketDef::from_fields)")
+                continue
+            if fk in ("padding_field", "elementsize_field", "checksum_field", "group_field"):
+                why.append("%s (todo!() in PacketDef::from_fields)" % fk)
                 continue
             fid = A.field_id(fl)
             if fid is not None:
+                members += 1
                 mn = member_name(fid)
                 if mn in JAVA_KEYWORDS:
-                    why.append("%s: member %s is a Java keyword" % (d["id"], mn))
+                    why.append("member %s is a Java keyword" % mn)
+                if mn in BAD_MEMBER_NAMES or (fk == "array_field" and mn in BAD_MEMBER_NAMES_ARRAY) or \
+                        (re.fullmatch(r"chunk\d+", mn) and (is_parent or fk == "array_field")):
+                    why.append("member %s clashes with a local of the generated code" % mn)
                 if mn in seen:
-                    why.append("%s: members collide on %s" % (d["id"], mn))
+                    why.append("two members become %s" % mn)
                 seen.add(mn)
                 if mn.endswith("Size") or mn.endswith("Count"):
-                    why.append("%s: member name %s ends in Size/Count" % (d["id"], mn))
+                    why.append("member name %s ends in Size/Count (taken for a width field: panic)" % mn)
+                if mn == "payload" and is_parent:
+                    why.append("member named payload in a parent")
             width = None
             if fk in ("scalar_field", "reserved_field", "size_field", "count_field"):
                 width = fl["width"]
             elif fk == "fixed_field":
-                width = fl["width"] if "width" in fl and fl.get("width") is not None else \
-                    (info.dm.get(fl.get("enum_id")) or {}).get("width")
+                if fl.get("enum_id") is not None:
+                    width = (info.dm.get(fl["enum_id"]) or {}).get("width")
+                    if width is None:
+                        why.append("fixed field of undeclared enum %s" % fl["enum_id"])
+                else:
+                    width = fl["width"]
+                    if fl["value"] >= (1 << 31):
+                        why.append("fixed value >= 2^31 is emitted as an int literal")
             elif fk == "typedef_field":
                 t = info.dm.get(fl["type_id"])
                 if t is None:
-                    why.append("%s: unknown type %s" % (d["id"], fl["type_id"]))
+                    why.append("field of undeclared type %s" % fl["type_id"])
                 elif t["kind"] == "enum_declaration":
                     width = t["width"]
-                elif t["kind"] not in ("struct_declaration",):
-                    why.append("%s: field of %s type" % (d["id"], t["kind"]))
+                elif t["kind"] not in ("struct_declaration", "packet_declaration"):
+                    why.append("field of %s type" % t["kind"])
             if width is not None:
-                if width > 64:
-                    why.append("%s: field wider than 64" % d["id"])
-                bits += width
-                if bits > 64:
-                    why.append("%s: more than 64 bits before a byte boundary" % d["id"])
-                if bits % 8 == 0:
-                    bits = 0
+                chunk.append((fl, width))
+                total = sum(w for _, w in chunk)
+                if total > 64:
+                    why.append("more than 64 bits before a byte boundary (ByteAligner panic)")
+                    chunk = []
+                elif total % 8 == 0:
+                    chunks.append(chunk)
+                    chunk = []
             elif fk == "array_field":
-                if bits:
-                    why.append("%s: array not byte aligned" % d["id"])
                 ew = fl.get("width")
                 if ew is None:
                     t = info.dm.get(fl["type_id"])
-                    if t is not None and t["kind"] == "enum_declaration":
+                    if t is None:
+                        why.append("array of undeclared type %s" % fl["type_id"])
+                    elif t["kind"] == "enum_declaration":
                         ew = t["width"]
-                    elif t is not None and t["kind"] != "struct_declaration":
-                        why.append("%s: array of %s" % (d["id"], t["kind"]))
+                    elif t["kind"] not in ("struct_declaration", "packet_declaration"):
+                        why.append("array of %s" % t["kind"])
                 if ew is not None and (ew % 8 or ew > 64):
-                    why.append("%s: array element width %d" % (d["id"], ew))
-        pd = info.dm.get(d.get("parent_id")) if d.get("parent_id") else None
-        if d.get("parent_id") and pd is None:
-            why.append("%s: parent excluded" % d["id"])
+                    why.append("array element width %d (ByteAligner panic)" % ew)
+        for ch in chunks:
+            total = sum(w for _, w in ch)
+            for fl, w in ch:
+                if fl["kind"] == "fixed_field" and fl.get("enum_id") is None:
+                    # the masked chunk expression is pasted unparenthesised into a string concatenation
+                    if (17 <= w <= 31 and total <= 32) or (33 <= w <= 63):
+                        why.append("fixed scalar of width %d (\"Value \" + chunk & mask does not type-check)" % w)
+                    if w == 1:
+                        why.append("fixed scalar of width 1 (boolean compared as an integer)")
+        pid = d.get("parent_id")
+        pd = info.dm.get(pid) if pid else None
+        if pid and pd is None:
+            why.append("parent %s is not declared" % pid)
+        if pid and not is_parent and members == 0:
+            why.append("concrete child without members (equals/hashCode reference an undefined `other`)")
         if pd is not None:
-            own = {A.field_id(fl) for fl in pd["fields"]}
+            own = {A.field_id(fl): fl for fl in pd["fields"]}
             for c in d.get("constraints", ()):
-                if c["id"] not in own:
-                    why.append("%s: constraint on %s which is not a member of the direct parent" % (d["id"], c["id"]))
-        if info.has_body(d) and not A.children_of({"declarations": info.decls}, d["id"]):
-            why.append("%s: _body_ without children" % d["id"])
-    return why
+                fl = own.get(c["id"])
+                if fl is None:
+                    why.append("constraint on %s which is not a member of the direct parent (unwrap panic)" % c["id"])
+                elif c.get("value") is not None and fl["kind"] == "scalar_field" and fl["width"] > 1:
+                    bits = integral(fl["width"])[2]
+                    if c["value"] >= (1 << (min(bits, 32) - 1)):
+                        why.append("constraint value %d is emitted as an int literal that does not fit the signed "
+                                   "%d-bit member" % (c["value"], bits))
+        if info.has_body(d) and not [x for x in info.decls if x.get("parent_id") == did]:
+            why.append("_body_ without children (panic)")
+        out.extend((did, w) for w in why)
+    return out
+
+
+def supported(file, exclude=()):
+    """Static pre-filter: list of "<declaration>: <reason>" strings, empty when the description is
+    expected to go through the Java backend and javac."""
+    return ["%s: %s" % x for x in diagnose(file, exclude)]
+
+
+def auto_exclude(file, exclude=()):
+    """Smallest-effort set of declaration ids to pass as --exclude-declaration so that what
+    remains is supported: the diagnosed declarations plus everything that refers to an excluded
+    one (children, typedef / array / fixed-enum users, groups and their users)."""
+    ex = set(exclude)
+    decls = [d for d in file["declarations"] if "id" in d]
+
+    def refs(d):
+        r = set()
+        if d.get("parent_id"):
+            r.add(d["parent_id"])
+        for fl in d.get("fields", ()):
+            for key in ("type_id", "enum_id", "group_id"):
+                if fl.get(key):
+                    r.add(fl[key])
+        return r
+
+    for _ in range(len(decls) + 2):
+        bad = {did for did, _ in diagnose(file, ex) if did is not None}
+        changed = bool(bad - ex)
+        ex |= bad
+        while True:
+            more = {d["id"] for d in decls if d["id"] not in ex and refs(d) & ex}
+            if not more:
+                break
+            ex |= more
+            changed = True
+        if not changed:
+            break
+    return tuple(d["id"] for d in decls if d["id"] in ex)
